@@ -154,6 +154,7 @@ def run(F, rep, tier):
                 rep.ok(r3, key, "clear_model_evaluators on every mutating path")
     rep.floor(r1, "index-mutating methods", nmut, 4)
     all_or_nothing_rule(F, rep, index_fields, fields)
+    per_model_loop_rule(F, rep, methods)
 
     # deploy
     dep = methods.get(W + "::deploy")
@@ -194,6 +195,32 @@ def run(F, rep, tier):
             rep.missing_anchor(r4, "ModelEvaluator::new call in deploy")
         else:
             rep.ok(r4, "deploy:err-arm", "no Err arm that leaves the loop")
+
+
+def per_model_loop_rule(F, rep, methods):
+    """R17.6: wherever the workspace handles several models in a loop (loading a directory, deploying), one model that cannot be parsed / added / built
+    must not end the loop: no `?`, `return` or `break` inside the body of a loop that calls dmntk_model::parse, Workspace::add or ModelEvaluator::new
+    (a `?` inside such a loop in a helper is the same defect)."""
+    rid = rep.rule("R17.6", "per-model loops (load directory, deploy) never leave the loop because one model failed: no `?`, return or break in their bodies")
+    PER_MODEL = ("dmntk_model::parse", W + "::add", "dmntk_model_evaluator::model_evaluator::ModelEvaluator::new")
+    n = 0
+    for name, h in sorted(methods.items()):
+        for lp, _ in find_hir(h["body"], lambda x: x.get("k") == "Loop"):
+            calls = [c for c, _ in find_hir(lp, lambda x: x.get("k") in ("Call", "MethodCall") and (x.get("callee") or "") in PER_MODEL)]
+            if not calls:
+                continue
+            n += 1
+            key = "loop:%s" % name.split("::")[-1]
+            exits = [x for x, par in find_hir(lp, lambda x: x.get("k") in ("Ret",) or (x.get("k") == "Match" and x.get("src") == "TryDesugar"))]
+            # `break` / `continue` of the for-loop desugaring itself do not count; an explicit break does
+            brk = [x for x, par in find_hir(lp, lambda x: x.get("k") == "Break" and not x.get("desugar")) if not any(p.get("src") == "ForLoopDesugar" and p.get("k") == "Match" and x in [a.get("b") for a in p.get("arms", [])] for p in par)]
+            closure_exits = []
+            if exits:
+                rep.violation(rid, key, "the loop in %s that handles one model per iteration is left by %s at line %s when a model fails: the remaining models are not processed"
+                              % (name.split("::")[-1], "`?`" if exits[0].get("k") == "Match" else "return", exits[0].get("l")), "%s:%s" % (FILE, exits[0].get("l")))
+            else:
+                rep.ok(rid, key, "%d per-model call(s), failures stay inside the iteration" % len(calls))
+    rep.floor(rid, "per-model loops", n, 2)
 
 
 def is_prefix(a, b):
